@@ -1,7 +1,9 @@
-(** C19 — since fix bb43d4f no input makes the SEARCH evaluator panic: the
-    model never returns [None], so HandleSearch never ends in [RPanic]. *)
+(** C19 — the fuel [eval_tokens] supplies is enough for EVERY token list, so
+    the model never returns [None]: the SEARCH evaluator has no run-time failure
+    and HandleSearch / UID SEARCH never end in [RPanic]. *)
 From Coq Require Import String Ascii List Bool Arith NArith ZArith Lia.
-From Raven Require Import Base.GoStr Model.Search.
+From Raven Require Import Base.GoStr Base.GoStrFacts Model.Search.
+From Raven Require Model.SeqSet.
 Import ListNotations.
 
 Lemma andk_total c k : k <> None -> andk c k <> None.
@@ -10,64 +12,87 @@ Lemma notk_total r k : r <> None -> k <> None -> notk r k <> None.
 Proof. destruct r as [[|]|]; simpl; congruence. Qed.
 Lemma ork_total r1 r2 k : r1 <> None -> r2 <> None -> k <> None -> ork r1 r2 k <> None.
 Proof. destruct r1 as [[|]|], r2 as [[|]|]; simpl; congruence. Qed.
+Lemma seqk_total r k : r <> None -> k <> None -> seqk r k <> None.
+Proof. destruct r as [[|]|]; simpl; congruence. Qed.
 
-(** the slices NOT / OR hand to the recursive call *)
-Definition slice_ok (l : list str) : Prop :=
-  match l with
-  | [_] => True
-  | [k; _] => requires_argument (to_upper k) = true
-  | _ => False
-  end.
+Lemma measure_cons t r : tokens_measure (t :: r) = (S (length t) + tokens_measure r)%nat.
+Proof. reflexivity. Qed.
+Lemma measure_firstn n l : (tokens_measure (firstn n l) <= tokens_measure l)%nat.
+Proof. revert n. induction l as [|t l IH]; intros [|n]; cbn [firstn]; rewrite ?measure_cons; try (cbn; lia). specialize (IH n). lia. Qed.
+Lemma measure_skipn n l : (tokens_measure (skipn n l) <= tokens_measure l)%nat.
+Proof. revert n. induction l as [|t l IH]; intros [|n]; cbn [skipn]; rewrite ?measure_cons; try (cbn; lia). specialize (IH n). lia. Qed.
 
-Ltac finish := repeat (first [apply andk_total | discriminate]).
-
-(** on a slice the evaluator never reaches its recursive call *)
-Lemma slice1_total T rec m k : eval_loop T rec m [k] <> None.
+(** the tokens of a string weigh at most its length plus one *)
+Lemma pst_measure s : forall cur inq d,
+  (tokens_measure (pst s cur inq d) <= length s + length cur + 1)%nat.
 Proof.
-  cbn [eval_loop]. cbv zeta. destruct (is_sequence_set (to_upper k)); [finish|].
-  destruct (kw_of (to_upper k)) as [w|]; [|discriminate]. destruct w; finish.
+  induction s as [|ch s IH]; intros cur inq d; cbn [pst].
+  - destruct cur; [cbn; lia|]. rewrite measure_cons, rev_length. cbn. lia.
+  - assert (A : forall inq' d', (tokens_measure (pst s (ch :: cur) inq' d') <= length (ch :: s) + length cur + 1)%nat).
+    { intros inq' d'. specialize (IH (ch :: cur) inq' d'). cbn [length] in *. lia. }
+    destruct (Ascii.eqb ch dq); [apply A|]. destruct (Ascii.eqb ch lpar); [apply A|]. destruct (Ascii.eqb ch rpar); [apply A|].
+    destruct (Ascii.eqb ch sp || Ascii.eqb ch tab); [|apply A].
+    destruct (inq || (0 <? d)%Z); [apply A|].
+    destruct cur as [|c cur].
+    + specialize (IH [] inq d). cbn [length] in *. lia.
+    + rewrite measure_cons, rev_length. specialize (IH [] inq d). cbn [length] in *. lia.
 Qed.
 
-Lemma slice_total T rec m l : slice_ok l -> eval_loop T rec m l <> None.
+Lemma removelast_len {A} (r : list A) : r <> [] -> S (length (removelast r)) = length r.
 Proof.
-  destruct l as [|k [|a [|? ?]]]; cbn [slice_ok]; try contradiction; intros H; [apply slice1_total|].
+  induction r as [|x r IH]; [congruence|]. intros _. destruct r as [|y r]; [reflexivity|].
+  change (removelast (x :: y :: r)) with (x :: removelast (y :: r)). cbn [length]. rewrite IH by discriminate. reflexivity.
+Qed.
+
+Lemma group_inner_length t : is_group t = true -> (length (group_inner t) + 2 <= length t)%nat.
+Proof.
+  unfold is_group, group_inner. destruct t as [|c r]; [discriminate|]. destruct (rev r) as [|c2 r'] eqn:E; [discriminate|].
+  intros _. assert (N : r <> []) by (intros ->; discriminate E).
+  pose proof (removelast_len r N). cbn [length]. lia.
+Qed.
+
+Ltac finish_rest IH L :=
+  repeat (first [apply andk_total | apply notk_total | apply ork_total | apply seqk_total
+                | (apply IH; rewrite ?measure_cons in *;
+                   repeat match goal with
+                          | |- context [tokens_measure (firstn ?n ?l)] => pose proof (measure_firstn n l); generalize dependent (tokens_measure (firstn n l)); intros
+                          | |- context [tokens_measure (skipn ?n ?l)] => pose proof (measure_skipn n l); generalize dependent (tokens_measure (skipn n l)); intros
+                          end; lia)
+                | discriminate ]).
+
+(** evaluateTokens terminates within the fuel: measure < fuel *)
+Lemma eval_loop_total T m : forall f toks, (tokens_measure toks < f)%nat -> eval_loop T m f toks <> None.
+Proof.
+  induction f as [|f IH]; intros toks L; [lia|].
+  destruct toks as [|t rest]; [discriminate|]. rewrite measure_cons in L.
   cbn [eval_loop]. cbv zeta.
-  destruct (is_sequence_set (to_upper k)).
-  { apply andk_total. destruct (is_sequence_set (to_upper a)); [finish|].
-    destruct (kw_of (to_upper a)) as [w|]; [|discriminate]. destruct w; finish. }
-  unfold requires_argument in H. destruct (kw_of (to_upper k)) as [w|]; [|discriminate H].
-  destruct w; try discriminate H; finish.
+  destruct (is_group (to_upper t)) eqn:G.
+  { apply seqk_total; [|apply IH; lia]. apply IH.
+    assert (G' : is_group t = true).
+    { unfold is_group in *. destruct t as [|c r]; [discriminate|]. cbn [to_upper map] in G. fold (to_upper r) in G.
+      unfold to_upper in G. rewrite <- map_rev in G. destruct (rev r); [discriminate|]. cbn [map] in G.
+      apply andb_true_iff in G as [G1 G2]. apply Ascii.eqb_eq in G1, G2.
+      assert (E1 : c = lpar) by (apply (upper_c_fix_inv lpar); [reflexivity | reflexivity | exact G1]).
+      assert (E2 : a = rpar) by (apply (upper_c_fix_inv rpar); [reflexivity | reflexivity | exact G2]).
+      subst. reflexivity. }
+    pose proof (group_inner_length _ G') as GI.
+    pose proof (pst_measure (group_inner t) [] false 0%Z) as P. unfold parse_search_tokens. cbn [length] in P. lia. }
+  destruct (Model.SeqSet.is_sequence_set (to_upper t)); [apply andk_total, IH; lia|].
+  destruct (kw_of (to_upper t)) as [k|]; [|apply IH; lia].
+  destruct k;
+    repeat (match goal with
+            | |- context [match ?l with [] => _ | _ :: _ => _ end] => is_var l; destruct l
+            | |- context [if (?a <? ?b)%nat then _ else _] => destruct (a <? b)%nat
+            end);
+    finish_rest IH L.
+  apply IH.
+  pose proof (measure_firstn (search_key_length (skipn (search_key_length rest) rest)) (skipn (search_key_length rest) rest)).
+  pose proof (measure_skipn (search_key_length rest) rest). lia.
 Qed.
 
-Lemma eval_loop_total T rec m : (forall l, slice_ok l -> rec l <> None) ->
-  forall n toks, (length toks <= n)%nat -> eval_loop T rec m toks <> None.
-Proof.
-  intros R. induction n as [|n IHn]; intros toks L.
-  - destruct toks; [discriminate | simpl in L; lia].
-  - destruct toks as [|t rest]; [discriminate|]. cbn [length] in L.
-    cbn [eval_loop]. cbv zeta.
-    destruct (is_sequence_set (to_upper t)); [apply andk_total, IHn; lia|].
-    destruct (kw_of (to_upper t)) as [k|]; [|apply IHn; lia].
-    destruct k;
-      repeat (match goal with
-              | |- context [match ?l with [] => _ | _ :: _ => _ end] => is_var l; destruct l; cbn [length] in L
-              | |- context [if requires_argument ?x then _ else _] => let E := fresh "E" in destruct (requires_argument x) eqn:E
-              end);
-      try discriminate;
-      repeat (first [apply andk_total | apply notk_total | apply ork_total
-                    | (apply R; cbn [slice_ok]; first [exact I | assumption])
-                    | (apply IHn; cbn [length] in *; lia)]).
-Qed.
-
-Lemma eval_tokens_slices T m l : slice_ok l -> forall d, eval_tokens_d (S d) T m l <> None.
-Proof. intros H d. cbn [eval_tokens_d]. now apply slice_total. Qed.
-
-(** evaluateTokens never panics *)
+(** evaluateTokens never fails *)
 Theorem eval_tokens_total T m toks : eval_tokens T m toks <> None.
-Proof.
-  unfold eval_tokens. cbn [eval_tokens_d]. apply eval_loop_total with (n := length toks); [|lia].
-  intros l H. now apply slice_total.
-Qed.
+Proof. unfold eval_tokens. apply eval_loop_total. lia. Qed.
 
 Lemma collect_total T toks msgs : collect_seq T toks msgs <> None.
 Proof.
@@ -77,12 +102,18 @@ Proof.
   - exfalso. destruct toks; [discriminate E|]. cbn [matches_search_criteria] in E. now apply eval_tokens_total in E.
 Qed.
 
-Theorem search_never_panics T parts msgs : handle_search T parts msgs <> RPanic.
+Theorem selected_never_panics T args (by_uid : bool) msgs : search_selected T args by_uid msgs <> RPanic.
 Proof.
-  unfold handle_search.
-  destruct (Z.of_nat (length parts) <? 3)%Z; [discriminate|].
+  unfold search_selected.
+  destruct (length args <? 1)%nat; [discriminate|].
   match goal with |- (if ?c then _ else _) <> _ => destruct c; [discriminate|] end.
   match goal with |- (if ?c then _ else _) <> _ => destruct c; [discriminate|] end.
-  destruct (evaluate_search_criteria T msgs _) eqn:E; [discriminate|].
+  destruct (evaluate_search_criteria T (fill_max msgs) _) eqn:E; [discriminate|].
   unfold evaluate_search_criteria in E. now apply collect_total in E.
 Qed.
+
+Theorem search_never_panics T parts msgs : handle_search T parts msgs <> RPanic.
+Proof. apply selected_never_panics. Qed.
+Theorem uid_search_never_panics T parts msgs : handle_uid_search T parts msgs <> RPanic.
+Proof. apply selected_never_panics. Qed.
+
